@@ -44,7 +44,7 @@ class Prop:
                    "key ages are moved by the VerifShift hooks in whole seconds; scenarios last < 0.9 s of real time, longer ones are discarded and counted; "
                    "the three idle scenarios shift by 179.5 s and wait in real time, discarded if an age comes within 30 ms of a whole second",
                    "message-count limits (RejectAfterMessages/RekeyAfterMessages), the 20 ms initiation flood limit (neutralised by a hook), cookies and the real-time timers are outside the slice",
-                   "the unbounded theorem 'holdsb accepts every model trace' is a statement only; proved by evaluation to depth 4 (thorough: 6 / 5)"]
+                   "C07_model_satisfies_spec (holdsb accepts every model trace) assumes whole-second ticks and fewer than 10^9 - 1 events, the harness's discipline"]
     trusted_extra = ["Base/Ints.v: primitive Uint63 literals carry the traces in generated case files only",
                      "add-only hook file /repo/device/verif_c07.go (SendHandshakeInitiation as the timers call it, latch/lastSentHandshake accessor, two time shifts)",
                      "harness/ref: the harness's own WireGuard implementation decides which session opens a datagram"]
